@@ -20,7 +20,8 @@ pub fn groups_of(prop: &str) -> (u32, bool) {
         "C13" => (grp::RECLAIM, true),
         "C14" => (grp::CLAIM | grp::CONTENT, false),
         "C18" => (grp::ALIGN | grp::CONTENT | grp::CONTAIN, false),
-        "C17" => (grp::CONTAIN, false),
+        "C17" => (grp::CONTAIN | grp::CONTENT, false),
+        "C15" => (grp::MUTCOLL | grp::CONTAIN | grp::CONTENT, false),
         _ => (grp::ALL, false),
     }
 }
@@ -77,6 +78,64 @@ fn map_in_scope(o: &Op) -> Option<Op> {
     if matches!(o, Op::Reset | Op::ResetToStart) { None } else { Some(*o) }
 }
 
+/// C15: the parameter space of exclusive-borrow collections and `*_mut` helpers
+pub fn c15_specs(thorough: bool) -> Vec<Op> {
+    use vcore::mutcoll::*;
+    let mut v = Vec::new();
+    let elems: &[u8] = &[0, 1, 3, 8, 24, 32];
+    let pushes: &[u8] = if thorough { &[0, 1, 2, 3, 5, 9, 17, 33, 45, 70] } else { &[0, 1, 3, 17, 45] };
+    let caps: &[u8] = if thorough { &[255, 0, 1, 3, 40] } else { &[255, 3, 40] };
+    let extras = [MutExtra::None, MutExtra::Reserve(50), MutExtra::ExtendUnder(5), MutExtra::ExtendOver(5)];
+    for kind in [MutKind::Vec, MutKind::VecRev] {
+        for &elem in elems {
+            for &cap in caps {
+                for &p in pushes {
+                    for extra in extras {
+                        for end in [MutEnd::Drop, MutEnd::Unwind, MutEnd::Finalise, MutEnd::FinaliseBoxed] {
+                            v.push(Op::MutColl(MutSpec { kind, elem, cap, pushes: p, extra, end }));
+                        }
+                    }
+                }
+            }
+        }
+    }
+    for &cap in caps {
+        for &p in pushes {
+            for extra in [MutExtra::None, MutExtra::Reserve(50)] {
+                for end in [MutEnd::Drop, MutEnd::Unwind, MutEnd::Finalise, MutEnd::FinaliseBoxed, MutEnd::FinaliseCstr] {
+                    v.push(Op::MutColl(MutSpec { kind: MutKind::Str, elem: 1, cap, pushes: p, extra, end }));
+                }
+            }
+        }
+    }
+    for kind in [MutKind::IterMut, MutKind::IterMutRev] {
+        for &elem in elems {
+            for &p in pushes {
+                for extra in [MutExtra::None, MutExtra::ExtendUnder(0), MutExtra::ExtendOver(0)] {
+                    for end in [MutEnd::Finalise, MutEnd::Unwind] {
+                        v.push(Op::MutColl(MutSpec { kind, elem, cap: 255, pushes: p, extra, end }));
+                    }
+                }
+            }
+        }
+    }
+    for kind in [MutKind::FmtMut, MutKind::CstrFmtMut] {
+        for &p in pushes {
+            for cap in [255u8, 0] {
+                for end in [MutEnd::Finalise, MutEnd::Unwind] {
+                    v.push(Op::MutColl(MutSpec { kind, elem: 1, cap, pushes: p, extra: MutExtra::None, end }));
+                }
+            }
+        }
+    }
+    v
+}
+
+fn nontrivial_c15(c: &Cover, h: &[Op]) -> bool {
+    use vcore::mutcoll::*;
+    h.iter().any(|o| matches!(o, Op::MutColl(m) if m.pushes > 0 || !matches!(m.extra, MutExtra::None))) && (c.chunk_switch || h.len() > 1)
+}
+
 pub fn c17_variants() -> Vec<Variant> {
     let v = |name: &'static str, h: Option<Handle>, map: fn(&Op) -> Option<Op>, wrap: bool| Variant { name, h, map, by_value_wrap: wrap };
     vec![
@@ -84,6 +143,8 @@ pub fn c17_variants() -> Vec<Variant> {
         v("refref", Some(Handle::RefRef), map_id, false),
         v("dyn", Some(Handle::Dyn), map_id, false),
         v("dyncore", Some(Handle::DynCore), map_id, false),
+        v("refmut", Some(Handle::RefMut), map_id, false),
+        v("dynmut", Some(Handle::DynMut), map_id, false),
         v("without_dealloc", Some(Handle::WoDealloc), map_no_dealloc, false),
         v("without_shrink", Some(Handle::WoShrink), map_no_shrink, false),
         v("without_shrink(without_dealloc)", Some(Handle::WoShrinkWoDealloc), map_no_dealloc_no_shrink, false),
@@ -181,6 +242,8 @@ pub fn spaces<'a>(prop: &'a str, thorough: bool, deadline: Instant, threads: usi
     let og = SlabCfg { phase: 48, overgrant: 40, fail_mask: 0 };
     let og2 = SlabCfg { phase: 4080, overgrant: 100, fail_mask: 0 };
     let mk = |alphabet: Vec<Op>, depth: usize, params: Vec<RunParams>, fault: FaultMode, nontrivial: fn(&Cover, &[Op]) -> bool, rule: &'a str, floor: u64| Space {
+        suffix: Vec::new(),
+        tail: Vec::new(),
         variants: Vec::new(),
         prop,
         alphabet,
@@ -245,7 +308,7 @@ pub fn spaces<'a>(prop: &'a str, thorough: bool, deadline: Instant, threads: usi
             vec![mk(
                 a,
                 d(4, 5),
-                params(&[Handle::Direct, Handle::WoShrink, Handle::WoShrinkWoDealloc, Handle::WoDealloc, Handle::Ref], &[Ctor::TryNew], &[z, og]),
+                params(&[Handle::Direct, Handle::WoShrink, Handle::WoShrinkWoDealloc, Handle::WoDealloc, Handle::RefMut], &[Ctor::TryNew], &[z, og]),
                 FaultMode::None,
                 nontrivial_c01,
                 "every enabled history over the alphabet up to the depth bound, per configuration x handle kind x substrate; non-trivial = the history performed a realloc (in place or moved), switched chunks, or had >= 2 non-empty live blocks",
@@ -514,6 +577,22 @@ pub fn spaces<'a>(prop: &'a str, thorough: bool, deadline: Instant, threads: usi
                 500,
             )]
         }
+        "C15" => {
+            // prelude (misaligns the position / fills the chunk) ++ one collection life cycle ++ optional follow-up
+            let prelude = vec![al(1, 1), al(3, 1), al(24, 8), Op::AllocRem { extra: 0, align: 1 }, Op::Enter(Region::Scoped), Op::Enter(Region::Aligned(1))];
+            let mut sp = mk(
+                prelude,
+                2,
+                params(&[Handle::Direct], &[Ctor::TryNew, Ctor::Unallocated], &[z]),
+                FaultMode::None,
+                nontrivial_c15,
+                "every prelude of <= 2 operations (allocations that misalign the position or exhaust the chunk, scope / alignment regions) followed by every collection life cycle of the parameter space {MutBumpVec, MutBumpVecRev, MutBumpString, alloc_iter_mut(_rev), alloc_fmt_mut, alloc_cstr_fmt_mut} x element type (ZST, 1/1, 3/1, 8/8, 24/8, 32/32) x initial capacity x number of pushes (up to beyond two chunk capacities) x {reserve, extend with under-/over-reporting size hints} x end {drop, unwind from a user callback, into_slice, into_boxed_slice / into_str / into_cstr / helper return}, optionally followed by one more allocation; positions of all chunks are recorded at every phase; non-trivial = a life cycle with at least one element after a non-empty prelude or with a chunk switch",
+                500,
+            );
+            sp.suffix = c15_specs(thorough);
+            sp.tail = vec![al(8, 8)];
+            vec![sp]
+        }
         "C17" => {
             let t = |op: TypedOp| Op::Typed { op, try_: true };
             let a = vec![
@@ -532,6 +611,8 @@ pub fn spaces<'a>(prop: &'a str, thorough: bool, deadline: Instant, threads: usi
                 t(TypedOp::AllocUninitSliceU8(9)),
                 Op::AllocRem { extra: 1, align: 1 },
                 Op::Grow { sel: Sel::Newest, delta: 8, align: 0, zeroed: false },
+                Op::Grow { sel: Sel::Newest, delta: 16, align: 0, zeroed: true },
+                Op::Alloc { size: 16, align: 4, zeroed: true },
                 Op::Shrink { sel: Sel::Newest, to: ShrinkTo::Half, align: 0 },
                 Op::ShrinkSlice { sel: Sel::Newest, to: ShrinkTo::Half },
                 Op::Dealloc { sel: Sel::Newest },
@@ -547,11 +628,11 @@ pub fn spaces<'a>(prop: &'a str, thorough: bool, deadline: Instant, threads: usi
             ];
             let mut sp = mk(
                 a,
-                d(4, 5),
+                d(3, 4),
                 params(&[Handle::Direct], &[Ctor::TryNew], &[z, og]),
                 FaultMode::None,
                 nontrivial_c01,
-                "every enabled history over the alphabet up to the depth bound is executed through the reference entry point (Bump / BumpScope inherent and static trait impls) and through 12 alternative entry points (&, &&, WithoutDealloc, WithoutShrink, both nestings, dyn BumpAllocatorCoreScope, dyn BumpAllocatorCore, panicking twin, dyn + panicking twin, generic layout path instead of typed fast paths, BumpScope by value instead of Bump); after every step the chunk index and offset of the returned block, its layout, allocated(), count() and remaining() must be equal; transitions counts reference + variant runs; non-trivial = the reference history performed a realloc, switched chunks or had >= 2 live blocks",
+                "every enabled history over the alphabet up to the depth bound is executed through the reference entry point (Bump / BumpScope inherent and static trait impls) and through 14 alternative entry points (&, &&, &mut, dyn MutBumpAllocatorCoreScope, WithoutDealloc, WithoutShrink, both nestings, dyn BumpAllocatorCoreScope, dyn BumpAllocatorCore, panicking twin, dyn + panicking twin, generic layout path instead of typed fast paths, BumpScope by value instead of Bump); after every step the chunk index and offset of the returned block, its layout, allocated(), count() and remaining() must be equal; transitions counts reference + variant runs; non-trivial = the reference history performed a realloc, switched chunks or had >= 2 live blocks",
                 500,
             );
             sp.variants = c17_variants();
